@@ -62,3 +62,20 @@ Theorem C05_whole_run_balanced : forall w x, l_tsetup (spec_of w x) = l_tteardow
   forall tr, wb w tr -> count (n_tsu x) tr = count (n_ttd x) tr.
 Proof. exact wb_balanced. Qed.
 Print Assumptions C05_whole_run_balanced.
+
+(* observation level: the predicate Obs.c05_ok evaluated on the implementation's observation (hook calls grouped
+   into test executions: exactly the stack's hooks, once, bases first, mirrored) holds of the model's observation
+   of every run, provided the grouping is unambiguous (every layer defines both per-test hooks or neither, or no
+   test is skipped by decorator — the only worlds the generator produces); a sequential case without
+   correspondence difference therefore satisfies it *)
+From ZT Require Import Chk_World Obs ModelCase ObsC05.
+Theorem C05_predicate_holds_of_model : forall w o,
+  wf (lw w) -> (forall b, In b (tests w) -> t_layer b < nlayers (lw w)) ->
+  ((forall x, l_tsetup (spec_of w x) = l_tteardown (spec_of w x)) \/ (forall b, In b (tests w) -> t_deco b = false)) ->
+  c05_ok w (observed w (r_parent (run w o))) (map (fun c => (c_layer c, observed w (c_ev c))) (r_children (run w o))) = true.
+Proof. exact c05_ok_model. Qed.
+Print Assumptions C05_predicate_holds_of_model.
+Theorem C05_check_sound : forall c, agree c = true -> wf_case c = true -> Nat.ltb 1 (o_procs (Chk_World.o c)) = false ->
+  sym_case c = true -> c05_ok (Chk_World.w c) (i_parent c) (i_children c) = true.
+Proof. exact c05_check_sound. Qed.
+Print Assumptions C05_check_sound.
